@@ -59,11 +59,21 @@ type Call struct {
 	Faulted bool
 }
 
+// InjectedPanic is the value a wrapped dependency panics with when the fault plan says so.
+type InjectedPanic struct{ Site string }
+
+func (p InjectedPanic) String() string { return "injected panic at " + p.Site }
+
 // Session is the per-case recording and fault plan.
 type Session struct {
 	Calls []Call
-	// Fail holds the indices (into the sequence of calls of this case) that must fail.
+	// Fail holds the indices (into the sequence of calls of this case) that must fail by
+	// returning an error before doing anything.
 	Fail map[int]bool
+	// PanicBefore / PanicAfter hold the indices of calls that must fail by PANICKING, before the
+	// real call or after it has completed (its effects are then in the state branch).
+	PanicBefore map[int]bool
+	PanicAfter  map[int]bool
 }
 
 func (s *Session) Sites() []string {
@@ -83,11 +93,22 @@ type Lab struct {
 
 // Begin starts a fresh session (recording, optional fault plan) for the next case.
 func (l *Lab) Begin(fail ...int) *Session {
-	s := &Session{Fail: map[int]bool{}}
+	s := &Session{Fail: map[int]bool{}, PanicBefore: map[int]bool{}, PanicAfter: map[int]bool{}}
 	for _, i := range fail {
 		s.Fail[i] = true
 	}
 	l.session = s
+	return s
+}
+
+// BeginPanic starts a session in which call number i panics (before or after the real call).
+func (l *Lab) BeginPanic(i int, after bool) *Session {
+	s := l.Begin()
+	if after {
+		s.PanicAfter[i] = true
+	} else {
+		s.PanicBefore[i] = true
+	}
 	return s
 }
 
@@ -99,13 +120,21 @@ func (l *Lab) enter(site string, req any) (idx int, fail bool) {
 	}
 	idx = len(s.Calls)
 	fail = s.Fail[idx]
-	s.Calls = append(s.Calls, Call{Site: site, Req: req, Faulted: fail})
+	s.Calls = append(s.Calls, Call{Site: site, Req: req, Faulted: fail || s.PanicBefore[idx] || s.PanicAfter[idx]})
+	if s.PanicBefore[idx] {
+		s.Calls[idx].Err = ErrInjected
+		panic(InjectedPanic{site})
+	}
 	return idx, fail
 }
 
 func (l *Lab) leave(idx int, err error) {
 	if l.session != nil && idx >= 0 {
 		l.session.Calls[idx].Err = err
+		if err == nil && l.session.PanicAfter[idx] {
+			l.session.Calls[idx].Err = ErrInjected
+			panic(InjectedPanic{l.session.Calls[idx].Site})
+		}
 	}
 }
 
@@ -280,6 +309,8 @@ func (a labApp) OnRecvPacket(ctx sdk.Context, packet channeltypes.Packet, relaye
 	ack := a.IBCModule.OnRecvPacket(ctx, packet, relayer)
 	if ack != nil && !ack.Success() {
 		a.l.leave(idx, fmt.Errorf("error acknowledgement: %s", ack.Acknowledgement()))
+	} else {
+		a.l.leave(idx, nil)
 	}
 	return ack
 }
